@@ -175,7 +175,7 @@ pub enum EvSum {
 }
 
 pub struct World {
-    pub discv5: Discv5,
+    pub discv5: Arc<Discv5>,
     pub victim: Identity,
     pub victim_pub: VerifyingKey,
     pub victim_id: Id,
@@ -237,6 +237,7 @@ impl World {
         let mut wire = push_virtual_wire();
         discv5.start().await.expect("start over the virtual wire");
         let events_rx = discv5.event_stream().await.expect("event stream");
+        let discv5 = Arc::new(discv5);
         let start = Instant::now();
         let sent = Arc::new(Mutex::new(Vec::new()));
         let (dummy_tx, dummy_rx) = mpsc::unbounded_channel();
